@@ -177,5 +177,20 @@ pub fn reference_pairs() -> Vec<(String, String)> {
 }
 
 pub fn read_rel(rel: &str) -> std::io::Result<Vec<u8>> {
+    // virtual files: projects printed by the generator
+    if let Some(seed) = crate::projgen::seed_of(rel) {
+        return Ok(crate::projgen::generate(seed).into_bytes());
+    }
     std::fs::read(Path::new(&repo_root()).join(rel))
+}
+
+/// Projects printed by the verifier's generator (virtual files `gen/<seed>/gen<seed>.ctehexml`).
+pub fn generated(seeds: impl Iterator<Item = u64>) -> Vec<CorpusFile> {
+    seeds
+        .map(|s| CorpusFile {
+            kind: FileKind::Ctehexml,
+            rel: crate::projgen::file_rel(s),
+            text: crate::projgen::generate(s),
+        })
+        .collect()
 }
